@@ -52,4 +52,36 @@ H = {
     'ym_div_f64_contract': dict(tier='thorough', props=['C14', 'C02', 'C03'], what='IntervalYM::div_f64', timeout_s=300),
     'dt_mul_f64_integer_factors_bounded': dict(tier='thorough', props=['C14'], complete=False, bound='|x| < 2^40 us, integer factor |k| < 4096', what='exact x*k and sign symmetry', timeout_s=900),
     'dt_div_f64_exact_quotients_bounded': dict(tier='thorough', props=['C14'], complete=False, bound='|q| < 10^6, divisor 1..=100', what='(q*k)/k == q exactly', timeout_s=900),
+    # ---- C19 lexer
+    'lex_picture_len5_bounded': dict(props=['C19', 'C03'], complete=False, bound='every byte string of length <= 5 (every byte value)', mem_heavy=True,
+                                     what='FormatParser accepts exactly the reference longest-match token sequences; same boundaries, fields, name styles', timeout_s=900),
+    'lex_picture_len6_bounded': dict(props=['C19', 'C03'], complete=False, tier='thorough', bound='every byte string of length <= 6', mem_heavy=True, what='same, 6 bytes', timeout_s=7200),
+    'lex_first_token_bounded': dict(props=['C19', 'C03'], complete=False, bound='first token of every byte string of length <= 8', mem_heavy=True,
+                                    what='next() returns the longest documented token at the start of the window', timeout_s=900),
+    'lex_blank_run_bounded': dict(props=['C19', 'C03'], complete=False, bound='blank runs of length 1..=600', what='blank run reproduced with the same total length, no overflow', timeout_s=900),
+    'picture_token_limit': dict(props=['C19'], what='36 tokens accepted, 37 rejected, empty picture accepted (concrete)', timeout_s=300),
+    # ---- scanners
+    'scan_parse_number_bounded': dict(props=['C05', 'C03', 'C18'], complete=False, bound='input <= 12 bytes, max_len 1..=9', what='parse_number contract: sign, maximal munch up to max_len, value, remainder', timeout_s=600),
+    'scan_parse_fraction_short_bounded': dict(props=['C05', 'C03'], complete=False, bound='input <= 8 bytes, max_len 1..=6', what='parse_fraction: exact scaling to microseconds', timeout_s=600),
+    'scan_parse_fraction_round7': dict(props=['C05'], what='7 fraction digits rounded half-up (all 10^7 values)', tier='thorough', timeout_s=3600),
+    'scan_parse_fraction_round8': dict(props=['C05'], what='8 fraction digits rounded half-up', tier='thorough', timeout_s=3600),
+    'scan_parse_fraction_round9': dict(props=['C05'], what='9 fraction digits rounded half-up', tier='thorough', timeout_s=3600),
+    'scan_week_day_number': dict(props=['C05', 'C03'], what="parse_week_day_number: '1'..='7' only, every input of <= 3 bytes (reads one byte)", timeout_s=120),
+    'scan_ampm_bounded': dict(props=['C05', 'C03'], complete=False, bound='input <= 6 bytes', what='parse_ampm: case-insensitive AM/PM or A.M./P.M. per style, empty = none', timeout_s=300),
+    'scan_month_name_bounded': dict(props=['C05', 'C03'], complete=False, bound='input <= 10 bytes', what='parse_month_name: full name before abbreviation, any case', timeout_s=900),
+    'scan_week_day_name_bounded': dict(props=['C05', 'C03'], complete=False, bound='input <= 10 bytes', what='parse_week_day_name per style', timeout_s=900),
+    # ---- C04 per-token rendering over every field record
+    'fmt_token_month_minute_second_hour24': dict(props=['C04', 'C03'], what='MM MI SS HH24: two digits, sign prefix, Err where inapplicable, all six flag sets', timeout_s=900),
+    'fmt_token_hour12_day': dict(props=['C04', 'C03'], what='HH/HH12 and DD', timeout_s=900),
+    'fmt_token_interval_day_bounded': dict(props=['C04', 'C03'], complete=False, bound='interval day count < 1000', what='interval DD: >= 2 digits, all digits', timeout_s=900),
+    'fmt_token_year': dict(props=['C04', 'C03'], what='Y..YYYY last n digits for dates, full signed year for YM intervals', timeout_s=900),
+    'fmt_token_fraction_1_to_6': dict(props=['C04', 'C03'], what='FF, FF1..FF6 truncation for every microsecond value', timeout_s=1800),
+    'fmt_token_fraction_7': dict(props=['C04'], tier='thorough', what='FF7', timeout_s=3600),
+    'fmt_token_fraction_8': dict(props=['C04'], tier='thorough', what='FF8', timeout_s=3600),
+    'fmt_token_fraction_9': dict(props=['C04'], tier='thorough', what='FF9', timeout_s=3600),
+    'fmt_token_ampm': dict(props=['C04', 'C03'], what='AM/PM by hour < 12 in the four styles', timeout_s=600),
+    'fmt_punctuation_blanks_sign': dict(props=['C04', 'C03'], what='punctuation, T, blanks copied; interval sign once', timeout_s=600),
+    'fmt_token_month_name': dict(props=['C04', 'C03'], what='English month names in six styles', timeout_s=900),
+    'fmt_token_weekday': dict(props=['C04', 'C03'], what='weekday name/number of the record date', assumes=[D2J_STUB], timeout_s=900),
+    'fmt_token_day_of_year_weeks': dict(props=['C04', 'C03'], what='DDD, W, WW', timeout_s=900),
 }
